@@ -142,8 +142,10 @@ def observers_diff(e1, e2):
     for k in e1.streams:
         if k in e2.streams and e1.streams[k].getvalue() != e2.streams[k].getvalue():
             return 'stream %s text differs' % k
-    if e1.printed != e2.printed or e1.tables_printed != e2.tables_printed:
-        return 'printer output differs'
+    for k in e1.printers:
+        if k in e2.printers and e1.printers[k] != e2.printers[k]:
+            return 'output of printer %s differs: headers %r vs %r' % (k, e1.printers[k]['headers'],
+                                                                      e2.printers[k]['headers'])
     return None
 
 
